@@ -139,10 +139,10 @@ func (c *channel) cancelPendingMsgs() {
 	routers := make([]responseRouter, 0, len(c.responseRouters))
 	for msgID, router := range c.responseRouters {
 		routers = append(routers, router)
-		// delete the router if we are only expecting a single reply message
-		if !router.streaming {
-			delete(c.responseRouters, msgID)
-		}
+		// The stream that carried (or would have carried) the request is gone, so no reply can
+		// arrive for it any more - also not for a streaming call: the node has failed for that
+		// call and must report so exactly once, not again when the next stream fails too.
+		delete(c.responseRouters, msgID)
 	}
 	c.responseMut.Unlock()
 	// hand over without holding the lock: the reply channel of a streaming call may be full
@@ -154,8 +154,9 @@ func (c *channel) cancelPendingMsgs() {
 func (c *channel) routeResponse(msgID uint64, resp response) {
 	c.responseMut.Lock()
 	router, ok := c.responseRouters[msgID]
-	// delete the router if we are only expecting a single reply message
-	if ok && !router.streaming {
+	// delete the router if we are only expecting a single reply message, or if this
+	// is the node's last one: an error ends a stream of replies too
+	if ok && (!router.streaming || resp.err != nil) {
 		delete(c.responseRouters, msgID)
 	}
 	c.responseMut.Unlock()
@@ -196,6 +197,20 @@ func (c *channel) enqueue(req request, responseChan chan<- response, streaming b
 		if c.parentCtx.Err() != nil {
 			c.failQueued()
 		}
+	}
+}
+
+// failRequest answers a request that could not be sent with an error. The node has failed for
+// that call, so the router is removed also for a streaming call: the node must not report
+// another error for the same call when the stream fails the next time.
+func (c *channel) failRequest(req request, err error) {
+	msgID := req.msg.Metadata.MessageID
+	c.responseMut.Lock()
+	router, ok := c.responseRouters[msgID]
+	delete(c.responseRouters, msgID)
+	c.responseMut.Unlock()
+	if ok {
+		router.deliver(response{nid: c.node.ID(), err: err})
 	}
 }
 
@@ -320,14 +335,14 @@ func (c *channel) sender() {
 		}
 		// return error if stream is broken
 		if c.streamBroken.get() {
-			c.routeResponse(req.msg.Metadata.MessageID, response{nid: c.node.ID(), err: streamDownErr})
+			c.failRequest(req, streamDownErr)
 			continue
 		}
 		// else try to send message
 		err := c.sendMsg(req)
 		if err != nil {
 			// return the error
-			c.routeResponse(req.msg.Metadata.MessageID, response{nid: c.node.ID(), err: err})
+			c.failRequest(req, err)
 		}
 	}
 }
